@@ -616,7 +616,51 @@ fn run_listener() {
     }
     l.k().clear();
 
-    // ---- S10: the agent is out of file descriptors when a redirected connection arrives (a flood of local connections does that):
+    // ---- S8: what the agent reports about the served connections (status summary): user and destination of the records
+    {
+        let other_uid = [1u32, 2, 65534].into_iter().find(|u| user_name(*u).is_some());
+        if let (Some(root_name), Some(ou)) = (user_name(0), other_uid) {
+            let other_name = user_name(ou).unwrap();
+            let st = shared.get_agent_status_shared_state();
+            let _ = rt.block_on(st.clear_all_summary());
+            let ra = l.rec(0, me, 1, "H1");
+            let rb = l.rec(ou, me, 0, "H2");
+            let mut served = 0;
+            if let Ok(mut c) = l.open(l.src(0x7001), Some(&ra)) {
+                for _ in 0..2 {
+                    served += l.request("status summary", "K(p,root->H1) C(p)", &mut c, Want::Served("H1", true)) as u32;
+                }
+            }
+            if let Ok(mut c) = l.open(l.src(0x7002), Some(&rb)) {
+                for _ in 0..3 {
+                    served += l.request("status summary", "K(q,other->H2) C(q)", &mut c, Want::Served("H2", false)) as u32;
+                }
+            }
+            if let Ok(mut c) = l.open(l.src(0x7001), None) {
+                l.request("status summary", "C(p) without record", &mut c, Want::Refused);
+            }
+            l.n.fetch_add(1, Ordering::SeqCst);
+            if served == 5 {
+                let sums = rt.block_on(st.get_all_connection_summary()).unwrap_or_default();
+                let mut got: BTreeMap<(String, String, u16), u64> = BTreeMap::new();
+                for s in sums.iter().filter(|s| s.responseStatus.starts_with("200")) {
+                    *got.entry((s.userName.clone(), s.ip.clone(), s.port)).or_insert(0) += s.count;
+                }
+                let mut want: BTreeMap<(String, String, u16), u64> = BTreeMap::new();
+                want.insert((root_name, ra.dst.to_string(), ra.dport), 2);
+                want.insert((other_name, rb.dst.to_string(), rb.dport), 3);
+                if got != want {
+                    l.fail(serde_json::json!({"property": "C07", "case": "status summary of the served requests", "history": "K(p,uid 0->H1) C(p) 2 requests; K(q,other uid->H2) C(q) 3 requests; C(p) without record",
+                        "got": format!("{:?}", got), "want": format!("{:?}", want)}));
+                }
+            }
+        } else {
+            println!("VXW-NOTE user names cannot be resolved here: status summary not checked");
+        }
+    }
+
+    // ---- S10 (LAST: running out of descriptors has side effects that outlive it, e.g. a user-name lookup that failed with EMFILE is
+    //      cached by the agent): the agent is out of file descriptors when a redirected connection arrives (a flood of local connections does that):
     //           accept() still gets the last free descriptor, but the socket cannot be duplicated for the service and the proxy
     //           drops the connection before it serves it. The kernel wrote a record for that connection and the proxy accepted it:
     //           the record must be consumed all the same, and its source port, used again without a fresh record, must be refused.
@@ -688,49 +732,6 @@ fn run_listener() {
         l.k().del_raw([TCP, p as u32]);
     }
     l.k().clear();
-
-    // ---- S8: what the agent reports about the served connections (status summary): user and destination of the records
-    {
-        let other_uid = [1u32, 2, 65534].into_iter().find(|u| user_name(*u).is_some());
-        if let (Some(root_name), Some(ou)) = (user_name(0), other_uid) {
-            let other_name = user_name(ou).unwrap();
-            let st = shared.get_agent_status_shared_state();
-            let _ = rt.block_on(st.clear_all_summary());
-            let ra = l.rec(0, me, 1, "H1");
-            let rb = l.rec(ou, me, 0, "H2");
-            let mut served = 0;
-            if let Ok(mut c) = l.open(l.src(0x7001), Some(&ra)) {
-                for _ in 0..2 {
-                    served += l.request("status summary", "K(p,root->H1) C(p)", &mut c, Want::Served("H1", true)) as u32;
-                }
-            }
-            if let Ok(mut c) = l.open(l.src(0x7002), Some(&rb)) {
-                for _ in 0..3 {
-                    served += l.request("status summary", "K(q,other->H2) C(q)", &mut c, Want::Served("H2", false)) as u32;
-                }
-            }
-            if let Ok(mut c) = l.open(l.src(0x7001), None) {
-                l.request("status summary", "C(p) without record", &mut c, Want::Refused);
-            }
-            l.n.fetch_add(1, Ordering::SeqCst);
-            if served == 5 {
-                let sums = rt.block_on(st.get_all_connection_summary()).unwrap_or_default();
-                let mut got: BTreeMap<(String, String, u16), u64> = BTreeMap::new();
-                for s in sums.iter().filter(|s| s.responseStatus.starts_with("200")) {
-                    *got.entry((s.userName.clone(), s.ip.clone(), s.port)).or_insert(0) += s.count;
-                }
-                let mut want: BTreeMap<(String, String, u16), u64> = BTreeMap::new();
-                want.insert((root_name, ra.dst.to_string(), ra.dport), 2);
-                want.insert((other_name, rb.dst.to_string(), rb.dport), 3);
-                if got != want {
-                    l.fail(serde_json::json!({"property": "C07", "case": "status summary of the served requests", "history": "K(p,uid 0->H1) C(p) 2 requests; K(q,other uid->H2) C(q) 3 requests; C(p) without record",
-                        "got": format!("{:?}", got), "want": format!("{:?}", want)}));
-                }
-            }
-        } else {
-            println!("VXW-NOTE user names cannot be resolved here: status summary not checked");
-        }
-    }
 
     l.k().clear();
     let fails = l.fails.load(Ordering::SeqCst);
